@@ -10,6 +10,7 @@ mod c13;
 mod au;
 mod c04;
 mod c05;
+mod c08;
 
 use util::Ctx;
 
@@ -42,6 +43,7 @@ fn main() {
         ("gen", "C13") => c13::gen(&mut ctx),
         ("gen", "C04") => c04::gen(&mut ctx),
         ("gen", "C05") => c05::gen(&mut ctx),
+        ("gen", "C08") => c08::gen(&mut ctx),
         _ => { eprintln!("unknown command"); std::process::exit(2); }
     }
     ctx.finish(stats.as_deref());
